@@ -34,7 +34,7 @@ IsEv(e) == l <= Len(Trace) /\ Line.ev = e /\ l' = l + 1
 TraceInit ==
    /\ l = 1 /\ caseIdx = -1 /\ cScript = <<>> /\ oRaw = <<>> /\ oErrs = <<>> /\ oLogs = <<>> /\ oInvoked = 0
    /\ oScript = <<>> /\ oEnd = <<>> /\ diverged = FALSE
-   /\ cfg = [strict |-> FALSE, reqClass |-> "valid_post", errMode |-> "default", gate |-> "validator", opt |-> "none", primer |-> "none"]
+   /\ cfg = [strict |-> FALSE, reqClass |-> "valid_post", errMode |-> "default", gate |-> "validator", opt |-> "none", primer |-> "none", auth |-> "callback"]
    /\ phase = "done" /\ w = WInit /\ hdr = "none" /\ script = <<>> /\ cOut = <<>>
    /\ invoked = 0 /\ errs = <<>> /\ logs = <<>>
 
@@ -57,7 +57,10 @@ TraceEnter ==
    /\ UNCHANGED <<caseIdx, cScript, oRaw, oErrs, oLogs, oScript, oEnd>>
 
 TraceHandlerCall ==
-   /\ IsEv("H") /\ Follow(HandlerCall(Line.c))
+   \* the model also predicts what a Probe finds and what a body read returns (fidelity: a difference marks the run diverged)
+   /\ IsEv("H") /\ Follow(/\ HandlerCall(Line.c)
+                          /\ ("caps" \in DOMAIN Line => {Line.caps[i] : i \in DOMAIN Line.caps} = Caps(cfg))
+                          /\ ("read" \in DOMAIN Line => Line.read = Line.sent))
    /\ oScript' = Append(oScript, Line.c)
    /\ UNCHANGED <<caseIdx, cScript, oRaw, oErrs, oLogs, oInvoked, oEnd>>
 
@@ -84,7 +87,7 @@ TraceOther ==
 
 TraceEnd ==
    /\ IsEv("end")
-   /\ Follow(Gate \/ RespCheckFrom("handler"))       \* the silent epilogue
+   /\ Follow(Epilogue)       \* the silent epilogue
    /\ oEnd' = Line
    /\ UNCHANGED <<caseIdx, cScript, oRaw, oErrs, oLogs, oInvoked, oScript>>
 
@@ -95,10 +98,12 @@ TraceSpec == TraceInit /\ [][TraceNext]_<<vars, tvars>>
 -----------------------------------------------------------------------------
 Obs == LET eff == Effective(oRaw, oEnd.finalCt) IN
        [invoked |-> oInvoked, errs |-> oErrs,
-        eff |-> [eff EXCEPT !.panicked = @ \/ oEnd.panic]]
+        \* a panic other than the handler's own scripted one (oEnd.hpanic: the value recovered is the script's sentinel)
+        eff |-> [eff EXCEPT !.panicked = @ \/ (oEnd.panic /\ ~oEnd.hpanic)],
+        silent |-> oRaw = <<>>]
 
 (* the handler performed exactly the calls of the case (realiser round trip) *)
-Realised == oInvoked = 0 \/ oEnd.panic \/ oScript = cScript
+Realised == oInvoked = 0 \/ (oEnd.panic /\ ~oEnd.hpanic) \/ oScript = cScript
 
 RunFailed == Failed(cfg, IF oInvoked > 0 THEN oScript ELSE <<>>, Obs)
              \cup (IF Realised THEN {} ELSE {"harness_realiser"})
@@ -108,12 +113,12 @@ Judge ==
    (oEnd # <<>>) =>
       \/ RunFailed = {}
       \/ CSVWrite("%1$s", <<ToJson([case |-> caseIdx, failed |-> RunFailed, cfg |-> cfg,
-                                     script |-> oScript, obs |-> Obs, class |-> "none"])>>,
+                                     script |-> oScript, obs |-> Obs, class |-> Class(cfg, oScript, RunFailed)])>>,
                   "violations.ndjson")
 
 Fidelity ==
    (oEnd # <<>> /\ RunFailed = {}) =>
-      \/ (IsVH(cfg) /\ cfg.reqClass \notin ValidClasses)        \* the encoder's body is not modelled
+      \/ (IsVH(cfg) /\ cfg.errMode = "default" /\ ExpectedGate(cfg) # 0)        \* the default encoders' body is not modelled
       \/ (~diverged /\ cOut = oRaw /\ (cfg.errMode = "custom" => errs = oErrs) /\ logs = oLogs)
       \/ CSVWrite("%1$s", <<ToJson([case |-> caseIdx, diverged |-> diverged, model |-> cOut,
                                      observed |-> oRaw, mlogs |-> logs, ologs |-> oLogs])>>,
